@@ -53,6 +53,19 @@ def check_parse(ctx: Ctx, text: str):
         ctx.broke("correspondence", "parse-tree", json.dumps({"text": text, "lark": li, "lean": le})[:1500])
 
 
+def extreme_class(ex: Exception):
+    """failures whose cause is a constant of astronomical size (a literal like 6022e20 under floor / exp / an integer
+    power): the generated code holds an integer beyond int64 or a float that overflowed to `inf`"""
+    msg = str(ex)
+    if isinstance(ex, TypeError) and "loop of ufunc does not support argument" in msg:
+        return "huge-integer-constant"
+    if isinstance(ex, OverflowError):
+        return "constant-overflow"
+    if isinstance(ex, NameError) and ("'inf'" in msg or "'nan'" in msg or "'zoo'" in msg):
+        return "constant-overflow"
+    return None
+
+
 def check_case(ctx: Ctx, case: dict):
     text = case["text"]
     points = case.get("points")
@@ -91,7 +104,7 @@ def check_case(ctx: Ctx, case: dict):
         if not any(rm.usable(pt, 1) is not None for pt in gen.gen_inputs(random.Random(len(text)), probe, 4)):
             ctx.count("models_undefined_everywhere")
             return
-        ctx.violate(f"C01/numpy/codegen-exception/{type(ex).__name__}",
+        ctx.violate(f"C01/numpy/extreme-constant/{extreme_class(ex)}" if extreme_class(ex) else f"C01/numpy/codegen-exception/{type(ex).__name__}",
                     f"accepted model, but NumPy code generation raised {type(ex).__name__}: {str(ex)[:120]}",
                     case={"text": text}, error=repr(ex))
         return
@@ -138,7 +151,8 @@ def check_case(ctx: Ctx, case: dict):
             with np.errstate(all="ignore"):
                 out = mod.rhs(pt["t"], s, p)
         except Exception as ex:
-            ctx.violate(f"C01/numpy/rhs-raises/{type(ex).__name__}/{construct_key(rm, next(iter(rm.derivs)))}",
+            ctx.violate(f"C01/numpy/extreme-constant/{extreme_class(ex)}" if extreme_class(ex) else
+                        f"C01/numpy/rhs-raises/{type(ex).__name__}/{construct_key(rm, next(iter(rm.derivs)))}",
                         f"generated rhs raised {type(ex).__name__}: {str(ex)[:100]}", case={"text": text, "points": [pt]})
             break
         ctx.count("points")
@@ -187,6 +201,8 @@ def run(ctx: Ctx):
             cfg.chain = ctx.rng.randint(3, 25 if ctx.thorough else 10)
         if k % 5 == 0:
             cfg.depth = 5
+        if k % 10 == 9:
+            cfg.expr.extreme = True        # literals of astronomical size (the known findings C01/numpy/extreme-constant/*)
         if k % 9 in (4, 7):
             # crafted: conditionals and relations as operands inside the branches of a top-level conditional
             from . import backends as _be
